@@ -386,9 +386,10 @@ async def slow_hook_scenario(hook_time, probe_after):
         cm.time = old
 
 
-def reconnect_sweep_scenario(ttl, outage):
+def reconnect_sweep_scenario(ttl, outage, keepalive=500.0):
     """across a reconnect: a submit_sm stays unanswered, the connection is lost, the SMSC is unreachable for `outage` seconds; the first
-    request the ESME sends after the time-to-live has elapsed is the bind request of the new session (keep-alive far away)"""
+    request the ESME sends after the time-to-live has elapsed is the bind request of the new session (keep-alive far away), or - with a
+    short keep-alive interval - one of many probes, which use up sequence numbers in both sessions"""
     import struct
     from harness import vsess, smppref
     from aiosmpplib.correlator import SimpleCorrelator
@@ -401,7 +402,7 @@ def reconnect_sweep_scenario(ttl, outage):
     undo = vsess.install(loop, smsc)
     obs = {'requests': [], 'timeouts': []}
     try:
-        esme, hook = vsess.quiet_esme(enquire_link_interval=500.0, socket_timeout=4.0, correlator=SimpleCorrelator('c14', max_ttl_response=float(ttl)),
+        esme, hook = vsess.quiet_esme(enquire_link_interval=float(keepalive), socket_timeout=4.0, correlator=SimpleCorrelator('c14', max_ttl_response=float(ttl)),
                                       retry_timer=SimpleExponentialBackoff(500, 2))
         t_down = {}
 
@@ -421,6 +422,8 @@ def reconnect_sweep_scenario(ttl, outage):
                 elif cmd == 4 and conn.index == 0:
                     t_down['t'] = loop.time() + 0.5
                     conn.reset(delay=0.5)                 # never answered; the connection goes half a second later
+                elif cmd == 0x15:
+                    conn.send(smppref.header(0x80000015, 0, seq), delay=0.01)
         smsc.on_pdu = on_pdu
 
         def egate(m, err):
@@ -446,6 +449,71 @@ def reconnect_sweep_scenario(ttl, outage):
         undo()
         vsess.finish(loop)
     return obs
+
+
+def answered_scenario(shape, ttl=3.0):
+    """a submit_sm answered half a second after it was written, in each of the shapes an SMSC uses: accepted with a message id, rejected
+    with an empty C-string body, rejected with no body at all (what SMPP 3.4 prescribes for a non-zero status), generic_nack; keep-alive
+    probes go on well past the time-to-live: the answered message must have its response as its only outcome"""
+    import struct
+    from harness import vsess, smppref
+    from aiosmpplib.correlator import SimpleCorrelator
+    from aiosmpplib.protocol import SubmitSm, SubmitSmResp, GenericNack
+    from aiosmpplib.state import PhoneNumber
+    loop = vsess.VLoop()
+    asyncio.set_event_loop(loop)
+    smsc = vsess.FakeSMSC(loop)
+    undo = vsess.install(loop, smsc)
+    obs = {}
+    try:
+        esme, hook = vsess.quiet_esme(enquire_link_interval=1.0, socket_timeout=4.0, correlator=SimpleCorrelator('c14a', max_ttl_response=float(ttl)))
+
+        def on_pdu(conn, pdu):
+            for p in vsess.split_pdus(pdu)[0]:
+                cmd, seq = struct.unpack('>I', p[4:8])[0], struct.unpack('>I', p[12:16])[0]
+                if cmd in (1, 2, 9):
+                    conn.send(vsess.bind_resp_for(p))
+                elif cmd == 4:
+                    r = {'ok': smppref.header(0x80000004, 0, seq, b'id77\x00'),
+                         'reject_cstring': smppref.header(0x80000004, 0x0B, seq, b'\x00'),
+                         'reject_bare': smppref.header(0x80000004, 0x58, seq),
+                         'nack': smppref.header(0x80000000, 3, seq)}[shape]
+                    conn.send(r, delay=0.5)
+                elif cmd == 0x15:
+                    conn.send(smppref.header(0x80000015, 0, seq), delay=0.01)
+        smsc.on_pdu = on_pdu
+
+        async def main():
+            t = asyncio.create_task(esme.start())
+            await asyncio.sleep(1.0)
+            await esme.broker.enqueue(SubmitSm(short_message='m', source=PhoneNumber('1'), destination=PhoneNumber('2'), log_id='LOGA', extra_data='XA'))
+            await asyncio.sleep(float(ttl) * 3 + 5.0)
+            obs['start_done'] = t.done()
+            obs['errors'] = [(type(e[2]).__name__) for e in hook.log if e[0] == 'send_error' and isinstance(e[1], SubmitSm) and e[1].log_id == 'LOGA']
+            obs['responses'] = [(type(e[1]).__name__, int(e[1].command_status), e[1].extra_data) for e in hook.log
+                                if e[0] == 'received' and isinstance(e[1], (SubmitSmResp, GenericNack)) and e[1].log_id == 'LOGA']
+            if not t.done():
+                t.cancel()
+                try:
+                    await t
+                except BaseException:  # noqa: BLE001
+                    pass
+        loop.run_until_complete(main())
+    finally:
+        undo()
+        vsess.finish(loop)
+    return obs
+
+
+def oracle_answered(obs, shape):
+    if obs.get('start_done'):
+        return 'start() ended'
+    if obs['errors']:
+        return (f'a submit_sm answered ({shape}) half a second after it was written was reported to send_error ({obs["errors"]}); '
+                f'responses handed to the hook with its log_id: {obs["responses"]}')
+    if len(obs['responses']) != 1 or obs['responses'][0][2] != 'XA':
+        return f'a submit_sm answered ({shape}) in time: the hook saw {obs["responses"]} under its log_id'
+    return None
 
 
 def oracle_reconnect_sweep(obs, ttl):
@@ -535,6 +603,20 @@ def run(ctx):
         msg = oracle_reconnect_sweep(obs, ttl)
         if msg:
             ctx.violation(msg, {'function': 'reconnect_sweep', 'ttl': ttl, 'outage': outage})
+    for ttl, outage, ka in ((10.0, 1.0, 0.3), (6.0, 0.5, 0.5)) + (((15.0, 2.0, 0.25), (4.0, 0.2, 0.2)) if ctx.thorough else ()):
+        obs = reconnect_sweep_scenario(ttl, outage, ka)
+        ctx.traces += 1
+        ctx.case(('reconnect_sweep', ttl, outage, ka), nontrivial=True)
+        msg = oracle_reconnect_sweep(obs, ttl)
+        if msg:
+            ctx.violation(msg + f' (keep-alive every {ka} s)', {'function': 'reconnect_sweep', 'ttl': ttl, 'outage': outage, 'keepalive': ka})
+    for shape in ('ok', 'reject_cstring', 'reject_bare', 'nack'):
+        obs = answered_scenario(shape)
+        ctx.traces += 1
+        ctx.case(('answered', shape), nontrivial=True)
+        msg = oracle_answered(obs, shape)
+        if msg:
+            ctx.violation(msg, {'function': 'answered', 'shape': shape})
     for y in (False, True):
         lid, na, nb = asyncio.run(sweep_hook_scenario(y))
         ctx.traces += 1
@@ -575,10 +657,16 @@ def replay(ctx, path):
         print(f'replay: time-out reported {after} s after the write (ttl {ttl} s)')
         return 1 if (after is not None and not after > ttl) or (after is None and rp['probe_after_write_seconds'] > ttl) else 0
     if fn == 'reconnect_sweep':
-        obs = reconnect_sweep_scenario(rp['ttl'], rp['outage'])
+        obs = reconnect_sweep_scenario(rp['ttl'], rp['outage'], rp.get('keepalive', 500.0))
         print('replay: requests written (time, connection, command):', [(round(t, 2), c, hex(cmd)) for t, c, cmd, _s in obs['requests']])
         print('replay: send_error calls:', obs['timeouts'])
         msg = oracle_reconnect_sweep(obs, rp['ttl'])
+        print('replay:', msg or 'property holds on this input')
+        return 1 if msg else 0
+    if fn == 'answered':
+        obs = answered_scenario(rp['shape'])
+        msg = oracle_answered(obs, rp['shape'])
+        print('replay: send_error calls', obs['errors'], 'responses', obs['responses'])
         print('replay:', msg or 'property holds on this input')
         return 1 if msg else 0
     if fn == 'script':
